@@ -533,6 +533,42 @@ def special_eval(which):
                     if os.path.exists(path + ext):
                         os.unlink(path + ext)
         return None
+    if which.startswith('mapping-'):
+        # NameID mapping with a policy that leaves the SP qualifier / the format open: the answer is never an
+        # identifier that was issued for another SP (or of another format) - that would link the user across SPs
+        from saml2_tophat.samlp import NameIDPolicy
+        db = IdentDB({}, domain='example.org')
+        a = db.persistent_nameid('u1', 'spA', '')
+        b = db.persistent_nameid('u1', 'spB', '')
+        t = db.transient_nameid('u1', 'spA', '')
+        pol = {'mapping-without-qualifier': NameIDPolicy(format=PERSISTENT, allow_create='false'),
+               'mapping-without-format': NameIDPolicy(sp_name_qualifier='spB', allow_create='false'),
+               'mapping-open': NameIDPolicy(allow_create='false')}[which]
+        try:
+            r = db.handle_name_id_mapping_request(t if which != 'mapping-without-format' else a, pol)
+        except Exception:
+            return None
+        if r is None:
+            return None
+        if (r.sp_name_qualifier or None) != (pol.sp_name_qualifier or None) or (r.format or None) != (pol.format or None):
+            return 'mapping-answered-with-an-identifier-of-another-sp-or-format:%s/%s' % (r.sp_name_qualifier, (r.format or '').rsplit(':', 1)[-1])
+        return None
+    if which == 'decode-hands-out-fresh-objects':
+        from saml2_tophat.ident import code, decode
+        db = IdentDB({}, domain='example.org')
+        a = db.persistent_nameid('u1', 'spA', '')
+        c = code(a)
+        d1 = decode(c)
+        d1.sp_provided_id = 'tampered'
+        d1.text = 'tampered'
+        d2 = decode(c)
+        if d2.text != a.text or d2.sp_provided_id:
+            return 'decoded-name-id-shared-between-callers'
+        f1 = db.find_nameid('u1')[0]
+        f1.text = 'tampered-too'
+        if db.find_nameid('u1')[0].text != a.text or db.find_local_id(a) != 'u1' or db.persistent_nameid('u1', 'spA', '').text != a.text:
+            return 'looked-up-name-id-shared-between-callers'
+        return None
     uid = {'int': 1001, 'uuid': uuid.UUID(int=7), 'bytes': b'u-1001', 'int-and-its-text': 7}[which]
     db = IdentDB({}, domain='example.org')
     p1 = db.persistent_nameid(uid, 'spA', '')
@@ -562,7 +598,8 @@ def special_eval(which):
     return None
 
 
-SPECIALS = ('empty-shelf', 'empty-userdict', 'empty-ordereddict', 'int', 'uuid', 'bytes', 'int-and-its-text')
+SPECIALS = ('empty-shelf', 'empty-userdict', 'empty-ordereddict', 'int', 'uuid', 'bytes', 'int-and-its-text',
+            'mapping-without-qualifier', 'mapping-without-format', 'mapping-open', 'decode-hands-out-fresh-objects')
 
 
 # ---------------------------------------------------------------- encoding table
